@@ -18,6 +18,7 @@ mod sweep;
 mod toks;
 mod pool;
 mod c11;
+mod c10;
 mod c04;
 mod c08;
 mod c06;
@@ -66,6 +67,7 @@ fn main() {
         "c12" => c12::run(&tier, seed, &out),
         "c16" => c16::run(&tier, seed, &out),
         "c11" => c11::run(&tier, seed, &out),
+        "c10" => c10::run(&tier, seed, &out),
         "c04" => c04::run(&tier, seed, &out),
         "c08" => c08::run(&tier, seed, &out),
         "c06" => c06::run(&tier, seed, &out),
